@@ -174,7 +174,7 @@ def verify_and_or_table(run):
 
 
 def build(run):
-    run.assume("A-REAL", "A-NP", "A-PY", "A-MSG", "A-LOG", "A-LISTVAL", "A-ACTVAL", "A-WF")
+    run.assume("A-REAL", "A-NP", "A-PY", "A-MSG", "A-LOG", "A-LISTVAL", "A-ACTVAL", "A-WF", "A-STR", "A-POSTFIX")
     rp = {"module": W_N, "func": "replay_antecedent", "kwargs": {}, "vars": {}}
     # "a loaded rule": Rule.load rebuilds the expression tree unconditionally from the CURRENT antecedent text (driver shared with C13)
     from props import C13
@@ -186,6 +186,15 @@ def build(run):
             run.add(undecided(f"{fq}/subset", f"outside the verified subset: {ex_}", fn=fq, meta={"replay": rp}))
         except NotFound as ex_:
             run.add(static(f"{fq}/exists", False, f"function under contract not found: {ex_}", fn=fq))
+    # WHERE every token of the antecedent ends up in the postfix text: each operand in its own step, each `and`/`or` at its first closer (the next operator
+    # of the same parenthesis depth that does not bind tighter, or the closing parenthesis of its group) - loop invariants on the real shunting-yard loops
+    from props import shunting
+    try:
+        shunting.verify_infix_order(run, rp)
+    except Unsupported as ex_:
+        run.add(undecided("term.Function.infix_to_postfix/order/subset", f"outside the verified subset: {ex_}", fn="term.Function.infix_to_postfix", meta={"replay": rp}))
+    except NotFound as ex_:
+        run.add(static("term.Function.infix_to_postfix/order/exists", False, f"function under contract not found: {ex_}", fn="term.Function.infix_to_postfix"))
     # bounded stand-in (level B): text -> tree -> value end to end, incl. infix->postfix (shunting-yard) which is not under contract
     depth = 3 if run.tier == "quick" else 4
     for q_ in ("Antecedent.load",):
